@@ -373,7 +373,12 @@ func init() {
 		// (top level, in a counter / range loop, in a region, in an if inside a loop), followed by more host output
 		subs := []string{"s{% exit %}never", "s{% for j := 0; j < 2; j++ %}{%= j %}{% exit %}x{% endfor %}never", "s{% for _, e := range lst %}{%= e %}{% exit %}{% endfor %}never",
 			"s{% if si == 1 %}{% exit %}{% endif %}never", "s{% for j := 0; j < 0; j++ %}{% else %}E{% exit %}{% endfor %}never", "s{% for _, e := range lst %}{% lazybreak %}{%= e %}{% exit %}n{% endfor %}never",
-			"s{% for j := 0; j < 2; j++ %}{% if j == 1 %}{% exit %}{% endif %}{%= j %}{% endfor %}t", "s"}
+			"s{% for j := 0; j < 2; j++ %}{% if j == 1 %}{% exit %}{% endif %}{%= j %}{% endfor %}t", "s",
+			// loop control of the INCLUDING template's loops written in the included one, a failing include inside, a
+			// lazybreak that its own loop never gets to consume because exit comes first
+			"a{% if si == 1 %}{% break %}{% endif %}b", "a{% continue %}b", "a{% lazybreak %}b{% break 2 %}c", "B{% include c16missing %}C",
+			"s{% for j := 0; j < 3; j++ %}{%= j %}{% lazybreak %}{% exit %}{% endfor %}e", "s{% for j := 0; j < 3; j++ %}{%= j %}{% lazybreak 2 %}{% exit %}{% endfor %}e",
+			"s{% for _, e := range lst %}{% for j := 0; j < 2; j++ %}{% lazybreak 2 %}{%= j %}{% exit %}{% endfor %}{% endfor %}e"}
 		hosts := []string{"a<{% include sub %}>tail", "a{% for i := 0; i < 2; i++ %}<{% include sub %}>{% endfor %}tail", "a{% for _, h := range lst %}<{% include sub %}>{%= h %}{% endfor %}tail",
 			"a{% jsonquote %}\"{% include sub %}\"{% endjsonquote %}tail", "a{% for i := 0; i < 2; i++ %}{% if i == 0 %}<{% include sub %}>{% endif %}{%= i %}{% endfor %}tail{%= si %}",
 			"a{% for i := 0; i < 2; i++ %}<{% include sub %}>{% endfor %}{% for k := 0; k < 2; k++ %}{%= k %}{% endfor %}tail",
